@@ -38,7 +38,7 @@ ASSUMPTIONS = [
 ]
 TRUSTED = ["translator tools/gen/crc_table.py", "harness/h_codec.c + tools/lib/vf.py",
            "bv_decide axioms (Lean.ofReduceBool-style: the LRAT checker compiled by Lean is trusted, not the SAT solver)"]
-DESIGN_REF = "DESIGN.md section 8, C16"
+DESIGN_REF = "DESIGN.md section 0.2 (as built) and section 8, C16"
 TECHNIQUE = "Lean 4 proof: regenerated table = bitwise register (kernel evaluation), table formula for all 2^24 pairs (bv_decide), induction over the octet list; differential three-way correspondence"
 LEVEL_TEXT = ("Machine-checked proof that the table-driven update of crc-16-arc.c - with the table and update expression regenerated from the "
               "source on every run - equals eight steps of the reflected-0x8005 bitwise register for every state and octet, hence "
